@@ -487,7 +487,11 @@ Section Codecs.
                   let (r2, evs) := fabric_removed (reload_nets (set_fabs r fabs1)) ctx in
                   commit (mkState r2 Idle None (s_kv st)) evs
               end
-            else (st, [])                 (* fabrics.remove fails with NotFound: nothing changes *)
+            else
+              (* the fabric of the context is gone already (RemoveFabric meanwhile): the expiry goes
+                 ahead, finds nothing to reload and reports the fabric as removed *)
+              let (r2, evs) := fabric_removed (reload_nets r) ctx in
+              commit (mkState r2 Idle None (s_kv st)) evs
         end
     | OResume f p =>
         if amem (r_fabs r) f then (with_ram st (set_resump r (resump_insert (r_resump r) f p)), [])
